@@ -1,6 +1,8 @@
 package main
 
 import (
+	"sync/atomic"
+
 	am "github.com/hashicorp/go-argmapper"
 )
 
@@ -13,6 +15,14 @@ var caseGraphHook func(point string, g, aux *am.VerifGraph, a, b am.VerifVertex,
 
 var hooksInstalled bool
 
+// graphSteps counts iterations of the graph package's main loops during the
+// current case (all goroutines). Exceeding stepLimit is reported as a
+// bounded-progress violation: the generated graphs have at most a few hundred
+// vertices, a case performs a few hundred searches of a few hundred steps.
+var graphSteps int64
+
+const stepLimit = 5_000_000
+
 func installHooks() {
 	if hooksInstalled {
 		return
@@ -21,6 +31,11 @@ func installHooks() {
 	am.VerifSetPointHook(func(p string, f *am.Func) {
 		if h := casePointHook; h != nil {
 			h(p, f)
+		}
+	})
+	am.VerifSetStepHook(func() {
+		if atomic.AddInt64(&graphSteps, 1) == stepLimit {
+			panic(boundExceeded{"graph-loop step bound exceeded (non-terminating search or path reconstruction)"})
 		}
 	})
 	am.VerifSetGraphHook(func(p string, g, aux *am.VerifGraph, a, b am.VerifVertex, edgeTo map[interface{}]am.VerifVertex) {
@@ -33,6 +48,7 @@ func installHooks() {
 func clearCaseHooks() {
 	casePointHook = nil
 	caseGraphHook = nil
+	atomic.StoreInt64(&graphSteps, 0)
 }
 
 // depthMeter counts reachTarget nesting and entries (sequential cases only).
@@ -66,3 +82,5 @@ func (d *depthMeter) hook(p string, f *am.Func) {
 func (d *depthMeter) reset() { d.depth, d.maxDepth, d.entries, d.tripped = 0, 0, 0, "" }
 
 type boundExceeded struct{ msg string }
+
+func (b boundExceeded) String() string { return b.msg }
